@@ -67,10 +67,24 @@ package vm
 //@ props C12 C07
 //@ assume[vm.frame.bounds] 0 <= vm.fp && vm.fp < 1023 && -1 <= vm.sp && vm.sp < 1023
 //@ ensures[C07.call.unwind] vm.fp == old(vm.fp) && vm.ip == old(vm.ip)
+// A failed call leaves the data stack no higher than it found it (KF-53 fixed: resumeFrame kept the top item of the
+// failed call as its "result": one slot leaked per caught error).
+// Checked where the body hands over to its deferred calls (the deferred script calls and resumeFrame are beyond
+// per-function reach: their net effect on the stack is not decided).
+//@ returnguard[C07.call.sp.error] resultErr != nil ==> vm.sp <= old(vm.sp)
 //@ requires[C12.ctx] ctx != nil && hasos(ctx)
 //@ requires vm != nil
 //@ modcomps H_ E_ M G_ C_
 //@ assumeframe
+
+//@ func (*VirtualMachine).discardAbove
+//@ props C07
+//@ requires vm != nil && -1 <= sp
+//@ assume[vm.stack.bounds] -1 <= vm.sp && vm.sp < 1024
+//@ modcomps H_vm_VirtualMachine_sp H_vm_VirtualMachine_stack E_
+//@ assumeframe
+//@ invariant 1: vm.sp <= old(vm.sp) && (old(vm.sp) <= sp ==> vm.sp == old(vm.sp)) && -1 <= vm.sp
+//@ ensures[C07.discard] vm.sp <= sp && vm.sp <= old(vm.sp) && (old(vm.sp) <= sp ==> vm.sp == old(vm.sp))
 
 // C14: a module already imported in this VM is returned as is (its code is not evaluated again: the cached
 // branch returns before anything else); a freshly evaluated module is cached under its name, so every later
